@@ -152,4 +152,15 @@ CLAIMS["C05"] = {
     "technique": "aligned-state and key-provenance analysis of the lazy class + post-dominance of invalidation + sibling call-structure comparison (AST, CFG)",
 }
 
+CLAIMS["C15"] = {
+    "text": "Decides by exception-flow analysis (per function: the set of possible numbers of line-offset additions carried by a FormatException leaving it; fixpoint over a call graph "
+            "that fans attribute calls out over the buffer-class family) that every format error leaving NumpyFileReader.read_chunk, NpDataclassReader.read_chunk and the lazy "
+            "ItemGetter.__call__ has had the chunk offset added exactly once (zero for whole-file reads), that the added quantity is the line count before the chunk (counter advanced after "
+            "the cut, snapshot before the raw read, raw read outside the handler), that every item getter built over a chunk carries the chunk's start line (the nested INFO getter does not: "
+            "recorded finding), that validation dominates buffer construction with the documented line formulas, that the EncodingError conversion raises on every path with the row formula "
+            "(side='right'), and - shared with C06 - that characters outside a column's alphabet are rejected for all 256 bytes.",
+    "note": _NOTE + "Not decided: the in-chunk row number beyond the conversion formula; column-count irregularities (the delimited _validate is dead code).",
+    "technique": "exception-flow abstract interpretation (count lattice {0,1,2+}) over a fanned-out call graph + CFG dominance (AST)",
+}
+
 NOT_APPLICABLE = {}
